@@ -68,6 +68,10 @@ const SRC: &[&str] = &[
     "s.strip_prefix p",  // 17
     "s.strip_suffix p",  // 18
     "s.repeat a",        // 19
+    "s.trim p",          // 20
+    "s.trim_start p",    // 21
+    "s.trim_end p",      // 22
+    "s.replace p, q",    // 23
 ];
 
 const PREDS: &[&str] = &[
@@ -240,6 +244,29 @@ fn ops_table(k: &KString, pats: &[Vec<u8>]) -> Vec<Vec<u64>> {
     t
 }
 
+/// pattern-taking functions (order of StrRun.pat_table)
+fn pat_table(k: &KString, len: usize, pats: &[Vec<u8>], reps: &[Vec<u8>]) -> Vec<Vec<u64>> {
+    let mut t = Vec::new();
+    let ks = |b: &Vec<u8>| KString::from(String::from_utf8(b.clone()).unwrap());
+    for p in pats {
+        let pk = ks(p);
+        for i in 20..=22 {
+            with_scripts(|sc| sc.set("p", KValue::Str(pk.clone())));
+            t.push(enc_result(run_chunk(i, k, 0, 0)));
+        }
+        for r in reps {
+            with_scripts(|sc| {
+                sc.set("p", KValue::Str(pk.clone()));
+                sc.set("q", KValue::Str(ks(r)));
+            });
+            t.push(enc_result(run_chunk(23, k, 0, 0)));
+        }
+        t.push(vec![5, 105]);
+        t.extend(drain_then_hint(sit::Split::new(k.clone(), pk.clone()), len + 3, None));
+    }
+    t
+}
+
 fn drain_then_hint<I>(mut it: I, fuel: usize, back: Option<&dyn Fn(&mut I) -> Option<KIteratorOutput>>) -> Vec<Vec<u64>>
 where
     I: Iterator<Item = KIteratorOutput>,
@@ -359,6 +386,10 @@ fn case_str(case: &Value) -> Value {
     }
     if want.contains('u') {
         o.insert("unpack".into(), json!(unpack_table(&k)));
+    }
+    if want.contains('p') {
+        let reps: Vec<Vec<u8>> = case["reps"].as_array().map(|a| a.iter().map(bytes_of).collect()).unwrap_or_default();
+        o.insert("pat".into(), json!(pat_table(&k, s.len(), &pats, &reps)));
     }
     if want.contains('o') {
         o.insert("ops".into(), json!(ops_table(&k, &pats)));
